@@ -232,7 +232,7 @@ fn main() {
     });
 
     // S2: terminating reciprocals 2^i 5^j at and just above their exact length
-    let (imax, jmax): (u32, u32) = (tier.pick(40, 60), tier.pick(20, 30));
+    let (imax, jmax): (u32, u32) = (tier.pick(66, 130), tier.pick(66, 130));
     run.bound("S2", format!("2^i 5^j, i<={}, j<={}", imax, jmax));
     run.par_opts("S2 terminating 2^i 5^j", (imax + 1) as usize, 60, &|i| json!({"x": format!("2^{} 5^j", i)}), |i| {
         let mut t = Tally::default();
